@@ -7,6 +7,7 @@ import (
 	"fmt"
 	"math"
 	"math/rand"
+	"strings"
 
 	"github.com/glowlabs-org/gca-backend/client"
 	"github.com/glowlabs-org/gca-backend/glow"
@@ -477,6 +478,20 @@ func childServers(b run.Batch, r *ev.Result) {
 				j.distinct("AuthorizedServer", name, rs.SigningBytes(), rw.SigningBytes(), "signing bytes")
 			}
 			j.distinct("AuthorizedServer", name, rs.Serialize(), rw.Serialize(), "serialization")
+		}
+		if i%8 == 3 {
+			// two servers whose locations are longer than the one-byte length prefix can express and
+			// agree in their first 255 bytes: different values (the endpoints refuse them; whoever
+			// signs or compares such records directly must still tell them apart)
+			long := s
+			long.Location = strings.Repeat("h", 255) + fmt.Sprintf(".%d.example", rng.Intn(1<<30))
+			other := long
+			other.Location = long.Location[:255] + fmt.Sprintf(".%d.invalid", rng.Intn(1<<30))
+			if other.Location != long.Location {
+				rl, ro := toAuthServer(long), toAuthServer(other)
+				j.distinct("AuthorizedServer", "Location beyond byte 255", rl.SigningBytes(), ro.SigningBytes(), "signing bytes")
+				r.Count("inj.authserver_long_location_pairs", 1)
+			}
 		}
 		if s.HTTP != s.TCP {
 			w := s
